@@ -626,7 +626,16 @@ func (h *handler) resetStream(rpc *goatorepo.Rpc) error {
 		reset.Header.ProxyNext = rpc.Header.ProxyRecord[0 : len(rpc.Header.ProxyRecord)-1]
 	}
 
-	return h.rw.Write(h.ctx, reset)
+	// Go through the connection's single writer like every other response, so
+	// that the reset can neither overtake the trailer of the stream it answers
+	// for (which may still be in the writer's hands) nor write to the transport
+	// concurrently with it.
+	select {
+	case h.writeChan <- reset:
+		return nil
+	case <-h.ctx.Done():
+		return context.Cause(h.ctx)
+	}
 }
 
 // contextFromHeaders returns a new incoming context with metadata populated
